@@ -917,9 +917,12 @@ def run(ctx, rep):
     from sa.report import RuleProxy
     nb = c10.check_whole_reductions(ctx, RuleProxy(rep, 'C09.A', 'reductions::'), only=lambda mname: mname in ('torchtree.evolution.bdsk', 'torchtree.evolution.birth_death'))
     rep.ok('C09.A', 'reductions::birth-death::scanned', '', {'reductions_without_axis_classified': nb})
+    c10.check_first_sample_rows(ctx, RuleProxy(rep, 'C09.A', 'rows::'), rule='C09.A', only=lambda mname: mname in ('torchtree.evolution.bdsk', 'torchtree.evolution.birth_death'))
     from sa import dtypes
     rep.rule('C09.T', "times / dates given as Python numbers enter the computation at the requested precision: a tensor built from them without a dtype (torch's default float32) is neither computed with nor converted afterwards")
     dtypes.check_default_precision(ctx, rep, 'C09.T', ['torchtree.evolution.bdsk', 'torchtree.evolution.birth_death'], 1)
+    if dtypes.check_work_buffers(ctx, rep, 'C09.T', ['torchtree.evolution.bdsk', 'torchtree.evolution.birth_death']) < 1:
+        rep.incomplete('C09.T', 'buffers', '', 'no work-array allocation found in the birth-death modules (the extinction probabilities p of the skyline recursion expected)')
     rep.explanation = (
         "JSON option plumbing of every from_json (an option stored for the constructor is read from the key of the same name), "
         "keyword plumbing and the epidemiological re-parameterisation as polynomial identities, member resolution of the model "
